@@ -126,7 +126,9 @@ func textBytes(r *vh.Rng) []byte {
 func randSpecial(r *vh.Rng, format string) special {
 	vo := vh.ValOpts{NoNaN: true, NoInf: true, ASCII: format == "json"}
 	pb := func() PtrBin { return PtrBin{A: r.Intn(100), B: r.Bytes(1 + r.Intn(20)), S: vh.RandString(r, vo)} }
-	pj := func() PtrJSON { return PtrJSON{N: r.Intn(9), J: []byte(fmt.Sprintf(`{"n":%d,"s":"%s"}`, r.Intn(100), textBytes(r)))} }
+	pj := func() PtrJSON {
+		return PtrJSON{N: r.Intn(9), J: []byte(fmt.Sprintf(`{"n":%d,"s":"%s"}`, r.Intn(100), textBytes(r)))}
+	}
 	keys := []string{"zeta", "alpha", "mid", "beta", "omega", "a", "b2", "b10"}
 	r.Intn(2)
 	for i := len(keys) - 1; i > 0; i-- {
